@@ -632,11 +632,24 @@ def prepare(scen):
     # classes: declared ones plus every subscripted/nested one reachable from their field types and from the op's type
     for name, cls in list(ctx.classes.items()):
         ctx.used[name] = cls
+    for pre in scen.get('pre', []):
+        # the types of the EARLIER conversions come into being first (a memo of subscripted classes is filled by the subscription)
+        try:
+            ctx.ty(pre['ty'])
+        except Exception:  # noqa
+            pass
     tys = [scen[k] for k in ('ty',) if k in scen] + list(scen.get('tys', []))
     for tj in tys:
         try:
             live = ctx.ty(tj)
             desc = ctx.describe(live)
+            if tj is scen.get('ty') and scen.get('stream') == 'twins-generic' and isinstance(tj, dict) and tj.get('cls') and tj['cls'][1]:
+                # C10: `G[X]` is the class whose variable is bound to X, whatever was subscripted before: its description must be
+                # the one composed from the description of X itself (typing's own normalisation acts on both alike)
+                want = {'cls': [tj['cls'][0], [ctx.describe(ctx.ty(a)) for a in tj['cls'][1]]]}
+                if canon(want) != canon(desc):
+                    scen.setdefault('_oracle_pre', {})['c10'] = (f'{tj["cls"][0]}[…] subscripted with {json.dumps(want["cls"][1])[:200]} after an equal-comparing '
+                                                                 f'spelling is the class of {json.dumps(desc)[:200]}')
             if tj is scen.get('ty') and not create_err and '"unsupported"' not in json.dumps(desc) and '"foreign"' not in json.dumps(desc):
                 # the model is given the type AS TYPING BUILT IT (typing normalises and caches: Union flattening /
                 # de-duplication, order-insensitive equality of Literal inside cached generic aliases, …)
